@@ -195,3 +195,36 @@ class Monitor:
 def seeded_keys(env, n, stream="keys"):
     g = rng(env, stream)
     return [g.randrange(1, R_) for _ in range(n)]
+
+
+_lead = {}
+
+
+def leading_byte_keys():
+    """{label: secret key} whose encodings have a coordinate in [0x1a << 376, p) (leading byte of p):
+    the public key, and x.c1 / x.c0 of the signature of b"abc" (basic, PoP).  Loaded from
+    golden/leading_byte_keys.json (tools/find_leading_byte_keys.py) and VALIDATED here with the
+    model; an entry that does not validate is dropped (never trusted)."""
+    if _lead:
+        return _lead
+    import json
+    import os
+    from ..core import ROOT
+
+    try:
+        with open(os.path.join(ROOT, "golden", "leading_byte_keys.json")) as f:
+            g = json.load(f)
+    except (OSError, ValueError):
+        g = {}
+    B = 0x1A << 376
+    k = g.get("pk")
+    if isinstance(k, int) and 0 < k < R_ and MB.pk_point(k)[0] >= B:
+        _lead["pk.x leading byte 0x1a"] = k
+    for suite in ("basic", "pop"):
+        for c in ("c1", "c0"):
+            k = g.get("sig:%s:%s" % (suite, c))
+            if isinstance(k, int) and 0 < k < R_:
+                Pt = MB.sign_point(suite, k, b"abc")
+                if Pt[0][1 if c == "c1" else 0] >= B:
+                    _lead["signature x.%s leading byte 0x1a (%s, message abc)" % (c, suite)] = k
+    return _lead
